@@ -52,6 +52,16 @@ ClassesOf(k) ==
          Cls("trailing",FALSE, "honest"),    \* one byte appended to the encoding
          Cls("signer",  FALSE, "honest"),    \* same contents, signed by another key
          Cls("unreg",   FALSE, "unreg") }    \* authentic, for an origin the issuer does not serve
+    \* the rate-limited issuer's origin lookup: authentic requests, each for another origin NAME; two names are registered
+    \* (the second longer than two padding blocks); a name is a byte string, and look-alikes are other origins
+    [] k = "rlorigins" -> {
+         Cls("reg",      TRUE,  "reg"),      \* the registered name
+         Cls("long",     TRUE,  "long"),     \* the long registered name
+         Cls("prefix32", FALSE, "long"),     \* its first 32 bytes
+         Cls("dot",      FALSE, "reg"),      \* the registered name followed by a dot
+         Cls("upper",    FALSE, "reg"),      \* ... in upper case
+         Cls("nul",      FALSE, "reg"),      \* ... followed by a zero byte and more
+         Cls("other",    FALSE, "other") }   \* an unrelated name
     [] k = "attester" -> {
          Cls("good",    TRUE,  "good"),      \* client c1's request, its key, its blind
          Cls("good2",   TRUE,  "good2"),     \* client c2's
